@@ -67,7 +67,7 @@ FlatRulesOnce(g, heads, flat) ==
 
 RulesOnce(g, heads, flat) ==
   /\ FlatRulesOnce(g, heads, flat)
-  /\ ~ImHasAgg(g) => SpecRulesOnce(g, heads) /\ SpecRulesOnce(g, flat)
+  /\ (g.pool <= 2) => (SpecRulesOnce(g, heads) /\ SpecRulesOnce(g, flat))
 
 (* Bag equality by counting (LSem!BagMatch backtracks, which is exponential *)
 (* on a mismatch with many equal rows; the rows here are plain integers,   *)
